@@ -36,7 +36,11 @@ def encode_functions(run: Run):
         run.encodes(meth)
         interp = pyz3.Interp(intrinsics={g.parse_as_datetime: lambda interp, entered_input: (tm.SymDT(t, off), None)})
         interp.base = [off > -86400, off < 86400, t + off >= tm.MIN_LOCAL, t + off <= tm.MAX_LOCAL]
-        paths = interp.explore(lambda meth=meth, interp=interp: interp.call_function(meth, [pyz3.Opaque("self"), pyz3.Opaque("entered_input")], {}))
+        try:
+            paths = interp.explore(lambda meth=meth, interp=interp: interp.call_function(meth, [pyz3.Opaque("self"), pyz3.Opaque("entered_input")], {}))
+        except pyz3.Unsupported as u:
+            run.ob(f"translate evaluate_{key}", "PZ", INCONCLUSIVE, detail=f"source outside PZ subset: {u} (boundary witnesses still run through the real code)")
+            continue
         run.counters["smt_queries"] += interp.queries
         run.counters["smt_time_s"] += interp.solver_time
 
@@ -56,6 +60,8 @@ def encode_functions(run: Run):
         terms[key] = pyz3.outcome_term(paths, enc, z3.IntVal(OTHER))
         raises[key] = [(pc, o[1]) for pc, o in paths if o[0] == "raise"]
         paths_by_key[key] = paths
+    if not terms:
+        raise pyz3.Unsupported("none of evaluate_931..935 is translatable")
     return t, off, terms, paths_by_key
 
 
@@ -106,7 +112,7 @@ def main(run: Run) -> int:
     # ---- translation validation: one witness per path of every function, through the real evaluate_93x via ISO strings
     bad = 0
     nprobe = 0
-    for key in KEYS:
+    for key in terms:
         for pc, _ in paths_by_key[key]:
             for extra in ([], dom_q):
                 r, m, dt = pyz3.check(dom_all + [pc] + extra)
@@ -186,6 +192,8 @@ def main(run: Run) -> int:
 
     eu_local = (t + tm.eu_offset_term(t)) % 86400
     for key, want in (("932", 0), ("933", 0), ("934", 21600), ("935", 21600)):
+        if key not in terms:
+            continue
         lemma(
             f"[{key}] fulfilled (no message) iff instant is {want // 3600:02d}:00:00 German local time by the EU rule, else unfulfilled with message; for every offset",
             dom_q,
@@ -193,7 +201,8 @@ def main(run: Run) -> int:
             [key],
             "every second 1996-01-01..2037-12-31 x every UTC offset in (-24h, +24h) at second resolution",
         )
-    lemma(
+    if "931" in terms:
+      lemma(
         "[931] fulfilled iff written with zero UTC offset, else unfulfilled with message",
         dom_q,
         z3.If(off == 0, terms["931"] == OK_, terms["931"] == BAD_MSG),
@@ -202,6 +211,8 @@ def main(run: Run) -> int:
     )
     off2 = z3.Int("off2")
     for key in ("932", "934"):
+        if key not in terms:
+            continue
         lemma(
             f"[{key}] verdict independent of the offset used to write the instant",
             dom_q + [off2 > -86400, off2 < 86400],
@@ -209,7 +220,7 @@ def main(run: Run) -> int:
             [key],
             "every second 1996-2037 x every pair of offsets",
         )
-    for key in KEYS:
+    for key in terms:
         lemma(
             f"[{key}] never raises for any parsed datetime of the representable range (years 1..9999)",
             dom_all,
